@@ -30,7 +30,7 @@ CHECKS = {
     'C06': dict(
         level='fault_enumeration',
         technique='fault enumeration over k in five classes (progress-handler callbacks, SQLite authorizer denials, sys.monitoring line failpoints in wn/_add.py, mid-DELETE VM aborts, corrupted references) with a byte-level table-dump oracle and an online SQL transaction-bracket checker',
-        text='Fault enumeration on real executions: for generated resources on a non-empty database every fault point of a class is first counted in a dry run on a copy, then injected one at a time (quick: sampled k incl. first/last and one per distinct source line; thorough: every k) into wn.add and wn.remove; after each fault the logical dump of all 24 tables (rowids included) must equal the dump before the call, the SQL trace must show no commit inside the failed call, the pooled connection must still serve reads, and finally the real operation must give the same database as without the faults. Counts of injected/interrupted/survived faults per class are in the evidence.',
+        text='Fault enumeration on real executions: for generated resources on a non-empty database every fault point of a class is first counted in a dry run on a copy, then injected one at a time (quick: sampled k incl. first/last and one per distinct source line; thorough: every k) into wn.add of a resource, wn.add of an ILI index and wn.remove of a base with an extension chain; a removal issued directly after a failed add is audited too; after each fault the logical dump of all 24 tables (rowids included) must equal the dump before the call, the SQL trace must show no commit inside the failed call, the pooled connection must still serve reads, and finally the real operation must give the same database as without the faults. Counts of injected/interrupted/survived faults per class are in the evidence.',
         note='Unit of atomicity = one resource (add) / one lexicon with its extensions (remove). A fault firing after the operation committed is not an interrupted operation (only the completed state is then also admissible). The harness drops the exception before probing usability (a traceback kept alive keeps the library cursor alive).',
         ref='3/C06'),
     'C07': dict(
@@ -40,7 +40,7 @@ CHECKS = {
         ref='3/C07'),
     'C04': dict(
         technique='membership invariant on every entity object the observation walk touches + differential non-interference monitor between three real databases (insiders / + outsiders / outsiders removed), classified by the reference model',
-        text='Runtime monitoring: for 15 selection/expand settings over a universe of related lexicons with colliding identifiers, the full public-API observation of Wordnet(S, expand=E) is taken in a database holding only S, its expand set and needed bases, again after every other lexicon (other versions, unselected extensions of members of S, unrelated lexicons sharing ids/forms/ILIs) was added, and again after they were removed; the three observations must be identical and every returned entity must belong to S. Held on K universes.',
+        text='Runtime monitoring: for 15 selection/expand settings over a universe of related lexicons with colliding identifiers, the full public-API observation of Wordnet(S, expand=E) is taken in a database holding only S, its expand set and needed bases, again after every other lexicon (other versions, unselected extensions of members of S, unrelated lexicons sharing ids/forms/ILIs) was added, and again after they were removed; the three observations must be identical and every returned entity must belong to S; the unrestricted default mode is compared with the model's family-scoped view on the full database. Held on K universes.',
         note='Which extensions/dependencies of a lexicon are installed is dependency bookkeeping (C05), masked here. Known finding: tags/pronunciations have no owner column.',
         ref='3/C04'),
     'C05': dict(
@@ -90,7 +90,7 @@ CHECKS = {
         ref='3/C15'),
     'C16': dict(
         technique='differential process runs: the same database file given to subprocesses with different PYTHONHASHSEED; canonical transcripts of a full API battery compared byte-wise; in-process repetition; SQL trace for writes',
-        text='Runtime monitoring: a battery covering every public query, navigation, taxonomy, similarity, IC, Morphy, validate, dump and export call (several thousand transcript lines per database) is executed twice in each of 4 (quick) / 12 (thorough) processes with different hash seeds on generated databases with planted ties; transcripts must be byte-identical, the battery must not write. Held on K databases x seeds.',
+        text='Runtime monitoring: a battery covering every public query, navigation, taxonomy, similarity, IC, Morphy, validate, dump and export call (several thousand transcript lines per database) is executed in each of 4 (quick) / 12 (thorough) processes with different hash seeds on generated databases with planted ties (several lowest common hypernyms, placeholder synsets, expand pairs, multi-candidate lemmatization): twice in the same order and once with the calls on every entity reversed, processes alternating which order comes first; transcripts must be byte-identical across processes and repetitions and equal as multisets across orders, and the battery must not write. Held on K databases x seeds.',
         note='Sets are compared sorted (they carry no order); lists and mappings keep their order.',
         ref='3/C16'),
     'C17': dict(
